@@ -47,6 +47,8 @@ func runChunks(c *rp.Ctx, cs chunkCase, wire []byte, seg string) error {
 	s.Write(wire)
 	s.CloseWrite()
 	p := rtmp.NewProtocol(&transport.Duplex{In: s, Out: transport.NewStream()})
+	var keptWant []rtmpx.Msg
+	var keptGot []*rtmp.Message
 	for k, e := range cs.Expect {
 		m, err := p.ReadMessage()
 		if err != nil {
@@ -58,6 +60,13 @@ func runChunks(c *rp.Ctx, cs chunkCase, wire []byte, seg string) error {
 		}
 		if err := sameChunked(want, m, c.Seed); err != nil {
 			return fmt.Errorf("message %d of %d (id %d): %v", k+1, len(cs.Expect), e.ID, err)
+		}
+		keptWant, keptGot = append(keptWant, want), append(keptGot, m)
+	}
+	// a delivered message stays what it was while later chunks are read
+	for k := range keptGot {
+		if err := sameChunked(keptWant[k], keptGot[k], c.Seed); err != nil {
+			return fmt.Errorf("message %d (id %d) changed after later reads: %v", k+1, keptWant[k].ID, err)
 		}
 	}
 	m, err := p.ReadMessage()
